@@ -78,12 +78,36 @@ func verifyFns(g *Gen, keys []string, outDir, tier string, seed int) []*fnResult
 	for _, k := range keys {
 		r := &fnResult{Key: k}
 		results = append(results, r)
+		if strings.HasPrefix(k, "refines:") {
+			var found *Refine
+			for i := range g.ct.Refines {
+				rf := &g.ct.Refines[i]
+				if "refines:"+rf.Iface+":"+rf.Impl == k {
+					found = rf
+				}
+			}
+			if found == nil {
+				r.Err = fmt.Errorf("%s: no such refines declaration", k)
+				continue
+			}
+			fg, err := genRefine(g, *found)
+			r.FG = fg
+			if err != nil {
+				r.Err = err
+				continue
+			}
+			r.Obs = fg.obligations()
+			all = append(all, r.Obs...)
+			continue
+		}
 		c := g.ct.C[k]
 		if c == nil {
 			r.Err = fmt.Errorf("%s: no contract found", k)
 			continue
 		}
-		if c.Kind == "lemma" {
+		if false {
+		}
+		if c != nil && c.Kind == "lemma" {
 			fg, err := genLemma(g, c)
 			r.FG = fg
 			if err != nil {
